@@ -74,7 +74,17 @@ var zzSeq int
 var zzOrd int // total order of fetches and dispatches
 var zzCurSlot phase0.Slot
 
-type zzBN struct{ fetches []zzFetch }
+type zzSFetch struct {
+	period   uint64
+	ok       bool
+	assigned bool
+	seq, ord int
+}
+
+type zzBN struct {
+	fetches  []zzFetch
+	sfetches []zzSFetch
+}
 
 func (b *zzBN) AttesterDuties(ctx context.Context, epoch phase0.Epoch, idx []phase0.ValidatorIndex) ([]*eth2apiv1.AttesterDuty, error) {
 	if !zzNondetBool("fetch_ok") {
@@ -111,7 +121,18 @@ func (b *zzBN) ProposerDuties(ctx context.Context, epoch phase0.Epoch, idx []pha
 	return []*eth2apiv1.ProposerDuty{{Slot: s, ValidatorIndex: 7}}, nil
 }
 func (b *zzBN) SyncCommitteeDuties(ctx context.Context, epoch phase0.Epoch, idx []phase0.ValidatorIndex) ([]*eth2apiv1.SyncCommitteeDuty, error) {
-	return nil, nil
+	period := uint64(epoch) / 4
+	zzOrd++
+	switch zzChoose("sync_fetch", 3) {
+	case 0:
+		b.sfetches = append(b.sfetches, zzSFetch{period: period, seq: zzSeq, ord: zzOrd})
+		return nil, errors.New("zz: beacon node down")
+	case 1: // the validator is not in the sync committee of this period
+		b.sfetches = append(b.sfetches, zzSFetch{period: period, ok: true, seq: zzSeq, ord: zzOrd})
+		return nil, nil
+	}
+	b.sfetches = append(b.sfetches, zzSFetch{period: period, ok: true, assigned: true, seq: zzSeq, ord: zzOrd})
+	return []*eth2apiv1.SyncCommitteeDuty{{ValidatorIndex: 7, ValidatorSyncCommitteeIndices: []phase0.CommitteeIndex{3}}}, nil
 }
 func (b *zzBN) Events(ctx context.Context, topics []string, h eth2client.EventHandlerFunc) error {
 	return nil
@@ -327,6 +348,108 @@ func ZZHarnessProposer() {
 		zzAssert(lf != nil, "dispatched-duty-was-fetched")
 		if lf != nil {
 			zzAssert(lf.slot == execs[i].slot, "dispatched-duty-is-in-the-most-recently-fetched-assignment")
+		}
+	}
+	zzReach("end")
+	if len(execs) > 0 {
+		zzReach("some-dispatch")
+	}
+}
+
+// ZZHarnessSync: the real SyncCommitteeHandler.HandleDuties loop across a sync-committee period boundary
+// (period = 4 epochs of 8 slots). While a validator is assigned for a period it has a sync-committee
+// message duty and a contribution duty at every slot of the period.
+func ZZHarnessSync() {
+	k := int(zzParam("K"))
+	const spp = 4 * zzSPE // slots per period
+	// period 1 = slots 32..63: early in the period, around the point where the next period is prepared
+	// (epoch 6, slot 2/3 of the epoch), and just before the period boundary
+	starts := []phase0.Slot{spp + 5, spp + 2*zzSPE + 2, spp + 2*zzSPE + 3, spp + 3*zzSPE + 5, spp + 3*zzSPE + 6, spp + 3*zzSPE + 7}
+	start := starts[zzChoose("start_slot", len(starts))]
+	zzCurSlot = start
+	bc := &zzBeacon{slot: start}
+	tk := &zzTicker{ch: make(chan time.Time), slot: start}
+	bn := &zzBN{}
+	var execs []zzExec
+	h := NewSyncCommitteeHandler(dutystore.NewSyncCommitteeDuties())
+	reorg := make(chan ReorgEvent)
+	idxc := make(chan struct{})
+	h.Setup("SYNC", zap.NewNop(), bn, nil, networkconfig.NetworkConfig{Beacon: bc}, zzVC{},
+		func(l *zap.Logger, ds []*spectypes.Duty) {
+			zzOrd++
+			for _, d := range ds {
+				execs = append(execs, zzExec{slot: d.Slot, tick: tk.slot, role: d.Type, seq: zzSeq, ord: zzOrd})
+			}
+		},
+		func() slotticker.SlotTicker { return tk }, reorg, idxc)
+	go h.HandleDuties(context.Background())
+	lastInvalidation := -1
+	ticked := false
+	for i := 0; i < k; i++ {
+		zzSeq++
+		ev := 0
+		if ticked {
+			ev = zzChoose("event", 4)
+		}
+		switch ev {
+		case 0:
+			nexec := len(execs)
+			tickOrd := zzOrd
+			tk.ch <- time.Time{}
+			zzYield()
+			ticked = true
+			slot := tk.slot
+			period := uint64(slot) / spp
+			// latest fetch of this period's assignment made before this tick
+			var lf *zzSFetch
+			for f := range bn.sfetches {
+				if bn.sfetches[f].period == period && bn.sfetches[f].ord <= tickOrd {
+					lf = &bn.sfetches[f]
+				}
+			}
+			if lf != nil && lf.ok && lf.assigned && lastInvalidation < lf.seq {
+				zzReach("due")
+				zzAssert(len(execs) == nexec+2, "fetched-sync-duty-dispatched-exactly-once-at-every-tick-of-its-period")
+				if period == 2 {
+					zzReach("due-after-period-boundary")
+				}
+			}
+			tk.slot++
+			bc.slot = tk.slot
+			zzCurSlot = tk.slot
+		case 1:
+			reorg <- ReorgEvent{Slot: tk.slot, Previous: true}
+			zzYield()
+			lastInvalidation = zzSeq
+		case 2:
+			reorg <- ReorgEvent{Slot: tk.slot, Current: true}
+			zzYield()
+			lastInvalidation = zzSeq
+			zzReach("reorg-current")
+		case 3:
+			idxc <- struct{}{}
+			zzYield()
+			lastInvalidation = zzSeq
+			zzReach("indices-change")
+		}
+	}
+	for i := range execs {
+		zzAssert(execs[i].slot == execs[i].tick, "dispatched-only-at-the-tick-of-its-slot")
+		zzAssert(execs[i].role == spectypes.BNRoleSyncCommittee || execs[i].role == spectypes.BNRoleSyncCommitteeContribution, "sync-roles")
+		for j := range execs {
+			if i != j {
+				zzAssert(!(execs[i].slot == execs[j].slot && execs[i].role == execs[j].role), "at-most-one-dispatch-per-slot-and-role")
+			}
+		}
+		var lf *zzSFetch
+		for f := range bn.sfetches {
+			if bn.sfetches[f].period == uint64(execs[i].slot)/spp && bn.sfetches[f].ok && bn.sfetches[f].ord < execs[i].ord {
+				lf = &bn.sfetches[f]
+			}
+		}
+		zzAssert(lf != nil, "dispatched-duty-was-fetched")
+		if lf != nil {
+			zzAssert(lf.assigned, "dispatched-duty-is-in-the-most-recently-fetched-assignment")
 		}
 	}
 	zzReach("end")
